@@ -12,6 +12,10 @@ mod props;
 mod util;
 mod tc;
 mod gensrc;
+mod alloc;
+
+#[global_allocator]
+static GLOBAL: alloc::Counting = alloc::Counting;
 
 use props::{Case, Tier};
 use serde_json::json;
